@@ -554,6 +554,11 @@ func Rename(oldpath, newpath string) error {
 		}
 	}
 	d.mutOps++
+	if strings.HasSuffix(oldpath, ".docs") && strings.HasSuffix(newpath, ".docs.del") {
+		if _, ok := d.names[strings.TrimSuffix(oldpath, ".docs")+".sdocs"]; ok {
+			w.Stats["probe_delete_of_fraction_with_docs_and_sdocs"]++
+		}
+	}
 	delete(d.names, oldpath)
 	d.names[newpath] = ino
 	d.journal = append(d.journal, nsOp{kind: "rename", path: oldpath, newPath: newpath})
